@@ -38,6 +38,24 @@ ParseFrom(t, i, plain, spans, open) ==
   ELSE ParseFrom(t, i + 1, Append(plain, t[i]), spans, open)
 ParseHL(t) == ParseFrom(t, 1, <<>>, <<>>, -1)
 
+\* Parsing a title rendered with arbitrary markers L, R (non-empty, neither a prefix of the other). Meant for titles whose
+\* plain text contains no character of either marker: then every marker character in the rendered title belongs to a
+\* marker, and a left-over marker character in the plain text means the markup is garbled (ok = FALSE).
+RECURSIVE ParseWithFrom(_, _, _, _, _, _, _)
+ParseWithFrom(t, L, R, i, plain, spans, open) ==
+  IF i > Len(t) THEN [ok |-> open = -1 /\ SeqRange(plain) \cap (SeqRange(L) \cup SeqRange(R)) = {}, plain |-> plain, spans |-> spans]
+  ELSE IF i + Len(L) - 1 <= Len(t) /\ SubSeq(t, i, i + Len(L) - 1) = L THEN
+         (IF open # -1 THEN [ok |-> FALSE, plain |-> plain, spans |-> spans]
+          ELSE ParseWithFrom(t, L, R, i + Len(L), plain, spans, Len(plain)))
+  ELSE IF i + Len(R) - 1 <= Len(t) /\ SubSeq(t, i, i + Len(R) - 1) = R THEN
+         (IF open = -1 THEN [ok |-> FALSE, plain |-> plain, spans |-> spans]
+          ELSE ParseWithFrom(t, L, R, i + Len(R), plain, Append(spans, [a |-> open, b |-> Len(plain)]), -1))
+  ELSE ParseWithFrom(t, L, R, i + 1, Append(plain, t[i]), spans, open)
+ParseWith(t, L, R) == ParseWithFrom(t, L, R, 1, <<>>, <<>>, -1)
+MarkersParseable(L, R) ==
+  /\ L # <<>> /\ R # <<>>
+  /\ ~(Len(L) <= Len(R) /\ SubSeq(R, 1, Len(L)) = L) /\ ~(Len(R) <= Len(L) /\ SubSeq(L, 1, Len(R)) = R)
+
 \* the plain title with markers `left`/`right` put around the spans
 InsertMarkers(plain, spans, left, right) ==
   LET RECURSIVE Ins(_, _, _)
